@@ -5,6 +5,7 @@ import (
 	"bytes"
 	"encoding/json"
 	"fmt"
+	"io"
 	"os"
 	"path/filepath"
 	"strings"
@@ -50,7 +51,14 @@ func runSecrets(c []string) string {
 	srcpw, tgtpw := string(unhex(c[2])), string(unhex(c[3]))
 	img, cmds := unhex(c[5]), unhex(c[6])
 	capt := &lockedBuf{}
-	log.StdLog = log.New(log.NopCloser(capt), "")
+	var sink io.Writer = capt
+	if sp := os.Getenv("RSPROBE_SIDE"); sp != "" {
+		// mirrored to the side file: if the scenario ends in log.Panic (= os.Exit) the parent still gets the output
+		if f, err := os.Create(sp); err == nil {
+			sink = io.MultiWriter(capt, f)
+		}
+	}
+	log.StdLog = log.New(log.NopCloser(sink), "")
 	switch c[4] {
 	case "debug":
 		log.SetLevel(log.LEVEL_DEBUG)
@@ -139,6 +147,19 @@ func runSecrets(c []string) string {
 			}
 		}
 		extra = fmt.Sprintf(" keys=%d srcauth=%d ckpt=%s", nkeys, nauth, strings.Join(ck, ","))
+	case "cluster":
+		// cluster source whose shard has no reachable master: the start path re-discovers the topology,
+		// gives up after the retry budget and aborts - whatever it prints on the way is in the side file
+		conf.Options.SourceType = "cluster"
+		node := &slot.SyncNode{Id: 0, Source: "127.0.0.1:1", Slaves: []string{"127.0.0.1:2"}, SourcePassword: srcpw,
+			Target: []string{tgt.Addr()}, TargetPassword: tgtpw, SlotLeftBoundary: 0, SlotRightBoundary: 5460}
+		ds := dbSync.NewDbSyncer(node, 9320, semaphore.NewWeighted(1))
+		done := make(chan struct{})
+		go func() { ds.Sync(); close(done) }()
+		select {
+		case <-done:
+		case <-time.After(60 * time.Second):
+		}
 	case "restore":
 		run.VerifRestoreRDB(bufio.NewReader(bytes.NewReader(img)), []string{tgt.Addr()}, int64(len(img)))
 	case "dump":
